@@ -175,7 +175,7 @@ def run(ctx):
         for soft in shapes:
             hw = E.hwview(model, soft)
             rec = {"id": "load-%d" % len(recs), "kind": "load", "label": label, "model": model, "soft": soft, "ok": True, "unresolved": 0, "badregex": 0,
-                   "equalTwice": True}
+                   "equalTwice": True, "shippedLoaded": True, "overlayEqual": True}
             if hw.vendor is None or hw.vendor not in reg:
                 ctx.skip("model resolves to no registered vendor (no rulebook to load)")
                 continue
@@ -184,6 +184,12 @@ def run(ctx):
                 rb2 = DefaultRulebookProvider().get_rulebook(hw)
                 rec["equalTwice"] = digest(canon(rb1)) == digest(canon(rb2)) == digest(canon(shared.get_rulebook(hw)))
                 rec["unresolved"], rec["badregex"] = audit(rb1)
+                # the ordering / deploy rulebooks are the vendor's shipped files (rendered for this hardware), empty only when none is shipped
+                rec["shippedLoaded"] = all(digest(canon(rb1[kind])) == digest(canon(shipped(kind, ext, hw)))
+                                           for kind, ext in (("ordering", "order"), ("deploying", "deploy")))
+                # a site overlay in front of the stock rulebooks (second texts directory, second root module) must not change what loads
+                if soft == shapes[0]:
+                    rec["overlayEqual"] = digest(canon(overlay_rulebook(ctx, hw))) == digest(canon(rb1))
             except Exception as e:
                 rec["ok"] = False
                 rec["exc"] = repr(e)
@@ -196,6 +202,42 @@ def run(ctx):
         if v != "ok":
             small = {k: x for k, x in rec.items() if k != "seqs"}
             ctx.reject(rec["id"], v, small, signature_of(rec, v))
+
+
+def shipped(kind, ext, hw):
+    """the vendor's shipped <vendor>.order / <vendor>.deploy text rendered for this hardware and compiled with the public compilers"""
+    import os
+    import annet.rulebook as R
+    from annet.annlib.lib import mako_render
+    from annet.annlib.rbparser.ordering import compile_ordering_text
+    from annet.rulebook.deploying import compile_deploying_text
+    path = os.path.join(os.path.dirname(R.__file__), "texts", "%s.%s" % (hw.vendor, ext))
+    text = mako_render(R.DefaultRulebookProvider._escape_mako(open(path).read()), hw=hw) if os.path.exists(path) else ""
+    return (compile_ordering_text if kind == "ordering" else compile_deploying_text)(text, hw.vendor)
+
+
+_OVERLAY = {}
+
+
+def overlay_rulebook(ctx, hw):
+    """get_rulebook through a provider that has an (empty) site package and texts directory in front of the stock ones"""
+    import os
+    import sys
+    import annet.rulebook as R
+    if "provider" not in _OVERLAY:
+        root = os.path.join(ctx.scratch, "overlay")
+        os.makedirs(os.path.join(root, "site_rb", "texts"), exist_ok=True)
+        open(os.path.join(root, "site_rb", "__init__.py"), "w").write("")
+        sys.path.insert(0, root)
+        _OVERLAY["provider"] = R.DefaultRulebookProvider(root_dir=(os.path.join(root, "site_rb"), os.path.dirname(R.__file__)),
+                                                         root_modules=("site_rb", "annet.rulebook"))
+    conn = R.rulebook_provider_connector
+    saved = getattr(conn, "_cache", None)
+    conn._cache = _OVERLAY["provider"]          # logic functions are imported through the connector's provider
+    try:
+        return _OVERLAY["provider"].get_rulebook(hw)
+    finally:
+        conn._cache = saved
 
 
 def audit(rb):
